@@ -148,8 +148,82 @@ def r3(ctx):
     ctx.floor(rule, n, "C10.R3.sites")
 
 
+def selectors(ctx, rule, pin):
+    """constant selector bits of the alternative forms of a primitive: writer = reader (and = X.691 when `pin`)"""
+    import json
+    import os
+    from ..core import VERIF
+    ctx.rule(rule, "T3 selector bits: in a PackedWrite primitive whose write_bit calls each precede a payload call with a value "
+                   "known there (a constant, or the condition of the branch the payload call is in), the bits "
+                   "written in front of each payload call are the bits the PackedRead twin has tested (read_bit branches) when it "
+                   "makes the same payload call" + ("; both equal the bit patterns of X.691 11.9.3.6-8 and 11.6 (tables/x691_selectors.json)" if pin else ""))
+    P = ctx.program()
+    with open(os.path.join(VERIF, "tables", "x691_selectors.json")) as fh:
+        table = json.load(fh)
+    n = 0
+    seen = set()
+    for name, wb, rb in primitive_pairs(ctx, rule):
+        Ow = X.Origins(wb, P)
+        wbits = [c for c in wb.calls() if c.name == "write_bit" and c.args]
+        if not wbits:
+            continue
+        # every selector write must be in front of some payload call (a bit written on one side of a branch that joins
+        # again - `if extensible { write_bit(out_of_range) }` - is the extension bit, which C01/C03/C05 treat)
+        payloads = [c for c in wb.calls() if c.name not in ("write_bit", "read_bit") and R.codec_call_desc(P, c, Ow.call_args(c), ()) is not None]
+        if any(not any(c.bb != p.bb and wb.dominates(c.bb, p.bb) for p in payloads) for c in wbits):
+            continue
+        shared = shared_params(wb, rb)
+        sides = {}
+        for side, b in (("writer", wb), ("reader", rb)):
+            O = Ow if b is wb else X.Origins(b, P)
+            tab = {}
+            for cs in b.calls():
+                if cs.name in ("write_bit", "read_bit"):
+                    continue
+                d = R.codec_call_desc(P, cs, O.call_args(cs), shared)
+                if d is None:
+                    continue
+                tab.setdefault(fmt(d), set()).add(R.selector_prefix(P, b, O, cs, side))
+            sides[side] = tab
+        if any("?" in x for v in sides["writer"].values() for x in v):
+            continue
+        seen.add(name)
+        for d in sorted(set(sides["writer"]) | set(sides["reader"])):
+            w, r = sides["writer"].get(d), sides["reader"].get(d)
+            if w is None or r is None:
+                continue        # skeleton differences are C10.R1's
+            n += 1
+            detail = {"primitive": name, "payload": d, "writer_bits": sorted(w), "reader_bits": sorted(r)}
+            key = "%s#%s" % (name, d)
+            want = table.get(name, {}).get(d) if pin else None
+            if pin:
+                detail["x691"] = want
+            if w != r:
+                ctx.fail(rule, key, "primitive `%s`: the writer puts the bits %s in front of %s, the reader makes that call after reading %s"
+                         % (name, sorted(w), d, sorted(r)), "%s:%d" % (wb.file, wb.line), detail)
+            elif pin and want is not None and w != {want}:
+                ctx.fail(rule, key, "primitive `%s`: %s is preceded by the bits %s, X.691 requires `%s`" % (name, d, sorted(w), want),
+                         "%s:%d" % (wb.file, wb.line), detail)
+            elif pin and want is None and w != {""}:
+                ctx.fail(rule, key, "primitive `%s`: %s is preceded by selector bits %s that tables/x691_selectors.json does not list" % (name, d, sorted(w)),
+                         "%s:%d" % (wb.file, wb.line), detail)
+            else:
+                ctx.ok(rule, key, detail, nontrivial=(w != {""}))
+        if pin:
+            for d in sorted(k for k in table.get(name, {}) if not k.startswith("_")):
+                if d not in sides["writer"]:
+                    ctx.fail(rule, "%s#anchor-lost:%s" % (name, d), "the writer of `%s` no longer makes the payload call %s" % (name, d),
+                             "%s:%d" % (wb.file, wb.line))
+    if pin:
+        for name in sorted(k for k in table if not k.startswith("_")):
+            if name not in seen:
+                ctx.fail(rule, "anchor-lost:" + name, "primitive `%s` is not a pair with constant selector bits any more" % name)
+    ctx.floor(rule, n, rule + ".payloads")
+
+
 def run(ctx):
     r1(ctx)
+    selectors(ctx, "C10.R6", pin=False)
     r2(ctx)
     r3(ctx)
     from .c02 import r3 as sign_sensitivity
